@@ -1,8 +1,10 @@
 /-
   C03 — function application, projection, locals and conditionals.
 
-  Mirrors (klongpy/interpreter.py, klongpy/types.py; tree with the two `fix:` commits of
-  branch fix-c03 applied):
+  Mirrors (klongpy/interpreter.py, klongpy/types.py; tree with the `fix:` commits of branch
+  fix-c03 applied: positional merge_projections, `.f` bound before the locals are stripped,
+  monad operand that is a KGCond, local declaration only as an array literal in front of a
+  plain list of expressions):
     KlongContext.__getitem__           -> `Ctx.get`        (module scopes are not modelled)
     KlongContext.__setitem__           -> `Ctx.set`        (reserved x y z always go to the top scope;
                                                             otherwise the first scope that has the name;
@@ -17,7 +19,7 @@
     types.merge_projections            -> `mergeProjections` (`mergeOld` = the algorithm before the fix)
     types.get_fn_arity                 -> `fnArity`
     KGCond branch of eval              -> `truthy`
-    chain_adverbs + eval_adverb_each / eval_adverb_over (function verbs only) -> `evalEach`, `evalOver`
+    chain_adverbs + eval_adverb_each / eval_adverb_over (function verbs only) -> `evalEachLoop`, `evalOverLoop`
     dyads.eval_dyad_at_index (function on the left) -> the `"@"` case of `step`
   The handful of verbs the grammar needs (`+ - * = ,` dyads, `- # ~` monads on integers and flat
   integer lists) are written locally; the verb/adverb library proper is C01/C02.
